@@ -113,6 +113,7 @@ func ValidateNodeGroup(nodegroup NodeGroupOptions) []error {
 	}
 
 	checkThat(nodegroup.SlowNodeRemovalRate <= nodegroup.FastNodeRemovalRate, "slow_node_removal_rate must be less than fast_node_removal_rate")
+	checkThat(nodegroup.SlowNodeRemovalRate >= 0, "slow_node_removal_rate must be not less than 0")
 
 	checkThat(len(nodegroup.SoftDeleteGracePeriod) > 0, "soft_delete_grace_period must not be empty")
 	checkThat(len(nodegroup.HardDeleteGracePeriod) > 0, "hard_delete_grace_period must not be empty")
